@@ -233,6 +233,16 @@ def run(tier: str, rd):
                     sv = pre + "a" * (fill // 2) + mid + "a" * (fill - fill // 2) + suf
                     items.append(("raw", sv))
                     items.append(("bval", sv))
+    # the edges of every code point class the lexer / printer distinguish (control characters, DEL, C1, the surrogate gap,
+    # the BMP / supplementary boundary, the last code point), alone and between ordinary characters
+    EDGES = [0x00, 0x08, 0x09, 0x0a, 0x0d, 0x1f, 0x20, 0x21, 0x22, 0x5c, 0x7e, 0x7f, 0x80, 0x9f, 0xa0, 0xd7ff, 0xe000, 0xe001, 0xfeff, 0xfffd, 0xfffe, 0xffff,
+             0x10000, 0x10ffff]
+    for cp in EDGES:
+        for form in (chr(cp), "a" + chr(cp), chr(cp) + "a", "a" + chr(cp) + "b", chr(cp) * 2):
+            items.append(("qval", form))
+            items.append(("bval", form))
+            if cp not in (0x22, 0x5c):
+                items.append(("raw", form))
     rng = random.Random(seed())
     for _ in range(2000 if tier == "quick" else 20000):   # class-uniformity sample: arbitrary Unicode scalar values
         s = gen_doc.rand_string_value(rng, 10)
